@@ -20,6 +20,7 @@ from rules.core import pat
 from rules.core.facts import Operand, Place, PASS_THROUGH
 
 CRATES = ["aranya_runtime"]
+THOROUGH_CONFIGS = ["lowmem"]   # thorough tier: the same rules on the low-mem-usage build
 R = "aranya_runtime::sync::responder::SyncResponder::"
 
 
